@@ -39,6 +39,7 @@ func (g *gen) writeParams(path string) {
 
 func (g *gen) run() {
 	g.lockTable()
+	g.accessTable()
 	g.tables()
 	g.schemas()
 	g.jschemas()
